@@ -49,6 +49,11 @@ def gen_target(rng):
                               action=rng.choice(['ALLOW', 'ALLOW', 'DROP']), direction=rng.choice(['OUT', 'OUT', 'IN']),
                               logged=rng.random() < 0.15, tag='T' if rng.random() < 0.1 else '',
                               sources_excluded=rng.random() < 0.08, destinations_excluded=rng.random() < 0.08, disabled=rng.random() < 0.05))
+        if rules and rng.random() < 0.3:
+            # dual stack: IPv6 twins of the rules between groups / ANY (same direction, sequence number, action, service, scope)
+            for r in list(rules):
+                if all(r[f] == 'ANY' or r[f].startswith(GP) for f in ('src', 'dst')) and rng.random() < 0.7:
+                    rules.append(dict(r, id='v6' + r['id'], ipp='IPV6'))
         c['policies'][pid] = rules
     finish(c)
     return c
@@ -96,7 +101,7 @@ def mutate(rng, tgt):
     for _ in range(rng.choice([0, 1, 1, 2, 2, 3, 4])):
         e = rng.choice(['del_rule', 'ins_rule', 'rename_rule', 'rename_grp', 'grp_add', 'grp_del', 'grp_many_del', 'split_grp', 'share_grp', 'grp_to_ip',
                         'ip_to_grp', 'svc_def', 'rule_srv', 'spare_grp', 'spare_svc', 'action', 'seq', 'clash_rule', 'clash_grp', 'del_policy', 'add_policy',
-                        'dup_grp', 'logged', 'clash_suffix', 'external', 'clash_grp2', 'flag', 'flag'])
+                        'dup_grp', 'logged', 'clash_suffix', 'external', 'clash_grp2', 'flag', 'flag', 'ipp', 'ipp', 'drop_family'])
         pids = sorted(d['policies'])
         rules = d['policies'][rng.choice(pids)] if pids else None
         if e == 'del_rule' and rules:
@@ -177,6 +182,14 @@ def mutate(rng, tgt):
         elif e == 'logged' and rules:
             r = rng.choice(rules)
             r['logged'] = not r.get('logged')
+        elif e == 'ipp' and rules:
+            # the address family of a rule differs
+            r = rng.choice(rules)
+            r['ipp'] = rng.choice([x for x in ('IPV4', 'IPV6', 'IPV4_IPV6') if x != (r.get('ipp') or 'IPV4')])
+        elif e == 'drop_family' and rules:
+            # the manager has the rules of one address family only
+            fam = rng.choice(['IPV4', 'IPV6'])
+            rules[:] = [r for r in rules if (r.get('ipp') or 'IPV4') != fam]
         elif e == 'flag' and rules:
             # a negation or the disabled flag differs; preferably on a rule between two groups
             cand = [r for r in rules if r['src'].startswith(GP) and r['dst'].startswith(GP)] or rules
@@ -243,7 +256,7 @@ def mutate(rng, tgt):
 
 # ------------------------------------------------------------------ JSON
 def rule_json(r):
-    j = dict(resource_type='Rule', id=r['id'], scope=['/infra/tier-0s/v1'], direction=r['direction'], ip_protocol='IPV4',
+    j = dict(resource_type='Rule', id=r['id'], scope=['/infra/tier-0s/v1'], direction=r['direction'], ip_protocol=r.get('ipp') or 'IPV4',
              sequence_number=r['seq'], action=r['action'], source_groups=[r['src']], destination_groups=[r['dst']], services=[r['srv']])
     if r.get('logged'):
         j['logged'] = True
@@ -374,7 +387,7 @@ def conf_from_render(lines):
             c['policies'].setdefault(f[1], []).append(rule(f[2], f[4], f[5], f[6], seq=misc.get('sequence_number', 0), action=misc.get('action', ''),
                                                            direction=misc.get('direction', ''), logged=misc.get('logged', False), tag=misc.get('tag', ''),
                                                            sources_excluded=misc.get('sources_excluded', False),
-                                                           destinations_excluded=misc.get('destinations_excluded', False), disabled=misc.get('disabled', False)))
+                                                           destinations_excluded=misc.get('destinations_excluded', False), disabled=misc.get('disabled', False), ipp=misc.get('ip_protocol', 'IPV4')))
         elif f[0] == 'G':
             c['groups'][f[1]] = [x for x in f[2].split(';') if x]
         elif f[0] == 'S':
